@@ -86,3 +86,61 @@ def content (paths zones : List ZPath) : Nat → ZPath → List Nat
     if ks.isEmpty then direct zones z else ks.flatMap (content paths zones fuel)
 
 end OP
+
+namespace OP
+
+/-! ### with a user zone tree (`_rewrite_stream_zones_from_tree`, after fix 3f9e38c)
+
+  The tree is the list of its node paths from the root (`path_to_node.keys()`); `none` as a zone
+  means the label named no node and was left as it was (the stream is then placed nowhere). -/
+
+/-- resolution of a label: the full path, the path below the root, or the only path ending with it -/
+def resolveLabel (paths : List ZPath) (root : String) (comps : ZPath) : Option ZPath :=
+  if paths.contains comps then some comps
+  else if paths.contains (root :: comps) then some (root :: comps)
+  else
+    match paths.filter (fun p => decide (comps.length ≤ p.length) && comps.isSuffixOf p) with
+    | [p] => some p
+    | _ => none
+
+def hasKids (paths : List ZPath) (z : ZPath) : Bool := !(kidsOf paths z).isEmpty
+
+/-- `base`, `base_2`, `base_3`, … -/
+def childName (base : String) (counter : Nat) : String :=
+  if counter = 1 then base else base ++ "_" ++ Nat.repr counter
+
+/-- `while process_name in sibling_names or process_name == node.name: counter += 1; …` -/
+def freshChild (paths : List ZPath) (node : ZPath) (nodeName base : String) : Nat → Nat → Option String
+  | 0, _ => none
+  | fuel + 1, c =>
+    if paths.contains (node ++ [childName base c]) || childName base c == nodeName
+    then freshChild paths node nodeName base fuel (c + 1) else some (childName base c)
+
+structure TBuild where
+  paths : List ZPath
+  zones : List (Option ZPath) := []
+  deriving Repr
+
+/-- one stream: label components and stream name -/
+def rewriteOne (root : String) (st : TBuild) (comps : ZPath) (sname : String) : Except Err TBuild :=
+  if comps.isEmpty then .ok { st with zones := st.zones ++ [none] }
+  else
+    match resolveLabel st.paths root comps with
+    | none => .ok { st with zones := st.zones ++ [none] }
+    | some r =>
+      if decide (1 < r.length) && !hasKids st.paths r then .ok { st with zones := st.zones ++ [some r] }
+      else
+        let nodeName := r.getLast?.getD ""
+        let base := if sname = "" then nodeName ++ "_Process" else sname
+        match freshChild st.paths r nodeName base (st.paths.length + 2) 1 with
+        | none => .error .badOp          -- never taken: `freshChild_some`
+        | some nm => .ok { paths := st.paths ++ [r ++ [nm]], zones := st.zones ++ [some (r ++ [nm])] }
+
+def rewriteAll (root : String) : List (ZPath × String) → TBuild → Except Err TBuild
+  | [], st => .ok st
+  | (c, n) :: rest, st =>
+    match rewriteOne root st c n with
+    | .ok st' => rewriteAll root rest st'
+    | .error e => .error e
+
+end OP
